@@ -310,6 +310,13 @@ func cmdCheck(args []string) {
 		if k.kind != "assert" {
 			rc.WantID = "\x00none"
 		}
+		if k.kind == "race" {
+			// the native run is made under the Go race detector; a few repetitions in case the path depends on select
+			rc.Race = true
+			if rc.Repeat < 3 {
+				rc.Repeat = 3
+			}
+		}
 		cases[pkgOf(g.first.Harness)] = append(cases[pkgOf(g.first.Harness)], rc)
 		caseGroup[name] = g
 	}
@@ -376,6 +383,8 @@ func cmdCheck(args []string) {
 			g.result = "confirmed"
 		case g.first.Kind == "hang" && r.Hang:
 			g.result = "confirmed"
+		case g.first.Kind == "race" && r.Race:
+			g.result = "confirmed" // the Go race detector reports a data race on the native run of this case
 		default:
 			g.result = "unconfirmed"
 		}
